@@ -18,6 +18,15 @@ AlphaThorough == AlphaQuick \o <<
   U(6, 7, "ok", "ok", "none", 15),
   R(2, 3, 6, "ok", "ok", "none", 32)
 >>
+(* with unpublished operations (their time is the submission time): a smaller alphabet *)
+AlphaUnpub == <<
+  C(1, 4, "ok", 10),
+  U(4, 5, "ok", "ok", "none", 11),
+  U(4, 6, "ok", "ok", "none", 12),
+  U(5, 6, "ok", "ok", "none", 13),
+  R(1, 2, 5, "ok", "ok", "none", 30),
+  D(1, "ok", "ok", "none")
+>>
 CoordsQuick    == {<<1, 0>>, <<1, 1>>, <<2, 0>>, <<3, 0>>}
 CoordsThorough == {<<1, 0>>, <<1, 1>>, <<2, 0>>, <<3, 0>>, <<4, 0>>}
 =============================================================================
